@@ -7,6 +7,7 @@ run-time errors are safety obligations.
 from __future__ import annotations
 
 import ast
+import time
 import os
 
 import z3
@@ -18,6 +19,9 @@ from .repoindex import FuncInfo, ClassInfo, ModuleInfo, External
 from .builtins import Builtins
 from .dyn import DynOps
 
+
+
+GEN_DEADLINE = [None, 0]      # [absolute deadline of the task being generated, its budget in seconds]; set by the driver's worker
 
 class PyRaise(Exception):
     def __init__(self, exc, node=None):
@@ -1034,6 +1038,9 @@ class Interp(Ops, Builtins, DynOps):
             self.exec_stmt(s, fr)
 
     def exec_stmt(self, s, fr):
+        if GEN_DEADLINE[0] is not None and time.time() > GEN_DEADLINE[0]:
+            # a body whose paths multiply (e.g. a comprehension branching on every element) is not read to the end: checker error, never a verdict
+            raise EngineError(f"generation budget of {GEN_DEADLINE[1]} s exceeded while reading line {getattr(s, 'lineno', '?')} (too many paths)")
         m = getattr(self, "st_" + type(s).__name__, None)
         if m is None:
             raise EngineError(f"unsupported statement {type(s).__name__} line {s.lineno}")
